@@ -14,6 +14,24 @@ from mirsym.values import *                     # noqa: E402,F401
 
 REPO = os.environ.get('VERIF_REPO', '/repo')
 BUILD = os.environ.get('VERIF_BUILD', os.path.join(VERIF, '.build'))
+EVID = os.environ.get('VERIF_EVIDENCE', os.path.join(VERIF, 'evidence'))
+
+
+def crate_dir(name):
+    """the out-of-tree crate (replay / kani).  Its path dependencies name /repo; when the check is pointed at another
+    checkout (VERIF_REPO, used only by tools/seedtest.sh so that seeded changes never touch /repo) a copy with rewritten
+    paths is used."""
+    src = os.path.join(VERIF, name)
+    if os.path.abspath(REPO) == '/repo':
+        return src
+    import shutil
+    dst = os.path.join(BUILD, 'src-' + name)
+    shutil.rmtree(dst, ignore_errors=True)
+    shutil.copytree(src, dst, ignore=shutil.ignore_patterns('target'))
+    t = open(os.path.join(dst, 'Cargo.toml')).read().replace('"/repo/', '"' + os.path.abspath(REPO) + '/')
+    open(os.path.join(dst, 'Cargo.toml'), 'w').write(t)
+    return dst
+
 
 
 def tier():
@@ -46,7 +64,7 @@ class Replay:
         env.pop('RUSTFLAGS', None)
         lock_src = os.path.join(REPO, 'Cargo.lock')
         p = subprocess.run(['cargo', 'build', '--offline', '--release', '--manifest-path',
-                            os.path.join(VERIF, 'replay', 'Cargo.toml')], env=env, capture_output=True, text=True)
+                            os.path.join(crate_dir('replay'), 'Cargo.toml')], env=env, capture_output=True, text=True)
         if p.returncode != 0:
             raise RuntimeError('replay driver build failed:\n' + p.stderr[-4000:])
         cls.built = True
@@ -218,8 +236,8 @@ class Check:
             code = 2
         if self.inconclusive:
             code = 2
-        os.makedirs(os.path.join(VERIF, 'evidence'), exist_ok=True)
-        os.makedirs(os.path.join(VERIF, 'evidence', 'replays'), exist_ok=True)
+        os.makedirs(EVID, exist_ok=True)
+        os.makedirs(os.path.join(EVID, 'replays'), exist_ok=True)
         if os.environ.get('VERIF_DEBUG'):
             json.dump(self.violations, open(os.path.join(BUILD, f'debug_{self.pid}_violations.json'), 'w'), indent=1, default=str)
         confirmed = [v for v in fresh_viol if v['replayed'] is True]
@@ -236,7 +254,7 @@ class Check:
                 if k in seen:
                     continue
                 seen.add(k)
-                path = os.path.join(VERIF, 'evidence', 'replays', f'{self.pid}_{v["obligation"]}_{len(seen)}.json')
+                path = os.path.join(EVID, 'replays', f'{self.pid}_{v["obligation"]}_{len(seen)}.json')
                 with open(path, 'w') as f:
                     json.dump(v, f, indent=1, default=str)
                 print(f'VIOLATION property={self.pid} replay={path}')
@@ -270,7 +288,7 @@ class Check:
             'wall_s': round(time.time() - self.t0, 2),
             'violations': len(confirmed),
         }
-        with open(os.path.join(VERIF, 'evidence', f'{self.pid}.json'), 'w') as f:
+        with open(os.path.join(EVID, f'{self.pid}.json'), 'w') as f:
             json.dump(ev, f, indent=1, default=str)
         print(f'[{self.pid}] tier={self.tier} obligations={n_obl} discharged={n_dis} known={len(self.known_hits)} '
               f'violations={len(confirmed)} inconclusive={len(self.inconclusive)} paths={self.paths} dup={self.dup_paths} queries={self.queries} '
@@ -345,7 +363,7 @@ def kani_run(ck, harness_filters, timeout_s=1500, jobs=8):
     A pass requires: VERIFICATION SUCCESSFUL, every cover satisfied, no unsupported-construct failure."""
     import re
     import shutil
-    kdir = os.path.join(VERIF, 'kani')
+    kdir = crate_dir('kani')
     shutil.copy(os.path.join(REPO, 'Cargo.lock'), os.path.join(kdir, 'Cargo.lock'))
     env = dict(os.environ, CARGO_NET_OFFLINE='true', CARGO_TARGET_DIR=os.path.join(BUILD, 'kani'))
     env.pop('RUSTFLAGS', None)
@@ -390,7 +408,7 @@ def kani_run(ck, harness_filters, timeout_s=1500, jobs=8):
 def kani_playback(harness, timeout_s=900):
     """concrete values of a failing harness: list of byte lists in kani::any() order"""
     import re
-    kdir = os.path.join(VERIF, 'kani')
+    kdir = crate_dir('kani') if os.path.abspath(REPO) == '/repo' else os.path.join(BUILD, 'src-kani')
     env = dict(os.environ, CARGO_NET_OFFLINE='true', CARGO_TARGET_DIR=os.path.join(BUILD, 'kani'))
     cmd = ['cargo', 'kani', '-Z', 'concrete-playback', '--concrete-playback=print', '--harness', harness]
     try:
